@@ -31,6 +31,7 @@ import (
 	"html"
 	"io"
 	"regexp"
+	"runtime"
 )
 
 type choiceRec struct {
@@ -555,6 +556,28 @@ func Fingerprint(x any) string {
 		v = v.Elem()
 	}
 	return fmt.Sprintf("%+v", v)
+}
+
+func Yield() { runtime.Gosched() }
+
+func Settle() { time.Sleep(30 * time.Millisecond) }
+
+func JWKS(keys any, unknownAt int) string {
+	v := reflect.ValueOf(keys)
+	var parts []string
+	for i := 0; i <= v.Len(); i++ {
+		if i == unknownAt {
+			parts = append(parts, `{"kty":"PQX","kid":"pq-1","use":"sig","x":"AAAA"}`)
+		}
+		if i < v.Len() {
+			b, err := json.Marshal(v.Index(i).Interface())
+			if err != nil {
+				panic(abortT{"cannot marshal JWK: " + err.Error()})
+			}
+			parts = append(parts, string(b))
+		}
+	}
+	return `{"keys":[` + strings.Join(parts, ",") + `]}`
 }
 
 func Debugf(format string, args ...any) { res.Notes = append(res.Notes, fmt.Sprintf(format, args...)) }
